@@ -47,6 +47,7 @@ pub fn generate(prop: &str, tier: &str, r: &mut Rng, out: &mut Vec<String>) -> G
             lang_pairs(out);
             inflating(out);
             multibyte(out);
+            length_sequences(out);
             token_sequences(out, if thorough { 5 } else { 4 });
             mutations(out, r, if thorough { 1_000_000 } else { 10_000 });
             for (kind, unit) in FAMILIES {
@@ -65,7 +66,7 @@ pub fn generate(prop: &str, tier: &str, r: &mut Rng, out: &mut Vec<String>) -> G
                 }
             }
             GenInfo {
-                rule: "enumerations: every string of <= 2 bytes after a valid header and 3-byte strings over a tier-dependent third-byte set; every (tag 0x00-0xff) x (length 0-16, 0xffff) x fill through the value decoder and as a one-attribute message (exact and off-by-one declared length); every inner length pair of the with-language syntaxes x total length 0-16; long runs of non-UTF-8 bytes (21840-65535) in every string-carrying syntax, names included (text that triples when decoded); valid multi-byte text (2-, 3- and 4-byte characters at every alignment, 300 to 65535 octets) that puts a character across every byte offset; all sequences of <= k tokens over a 16-token alphabet (k=4 quick, 5 thorough); seeded grammar-aware mutations of well-formed messages; structural bombs (16 families, sizes up to 1 MiB) in a child process. Non-trivial = distinct case lines".into(),
+                rule: "enumerations: every string of <= 2 bytes after a valid header and 3-byte strings over a tier-dependent third-byte set; every (tag 0x00-0xff) x (length 0-16, 0xffff) x fill through the value decoder and as a one-attribute message (exact and off-by-one declared length); every inner length pair of the with-language syntaxes x total length 0-16; long runs of non-UTF-8 bytes (21840-65535) in every string-carrying syntax, names included (text that triples when decoded); valid multi-byte text (2-, 3- and 4-byte characters at every alignment, 300 to 65535 octets) that puts a character across every byte offset; messages with several attributes whose name or value lengths rise, fall or repeat across 63-65 / 255-257 / 511-513 / 1024 / 2048 / 4096 / 8192 octets (every ordered pair of twenty sizes, six longer runs); all sequences of <= k tokens over a 16-token alphabet (k=4 quick, 5 thorough); seeded grammar-aware mutations of well-formed messages; structural bombs (16 families, sizes up to 1 MiB) in a child process. Non-trivial = distinct case lines".into(),
                 exhaustive: false,
             }
         }
@@ -464,6 +465,32 @@ pub fn generate(prop: &str, tier: &str, r: &mut Rng, out: &mut Vec<String>) -> G
                     }
                 }
             }
+            {
+                // attribute names of 62-67, 126-131, 254-259, 1022-1027 octets with a 2-, 3- or 4-octet character lying across
+                // octet 64 / 128 / 256 / 1024 (and one ending exactly there), two values: every cut and one fault at every
+                // offset from the end of the name to the end-of-attributes tag
+                for bound in [64usize, 128, 256, 1024] {
+                    for ch in ["\u{e9}", "\u{20ac}", "\u{1f600}"] {
+                        for before in 0..=ch.len() {
+                            // `before` octets of the character lie below the boundary
+                            let start = bound - before;
+                            let mut name = vec![b'n'; start];
+                            name.extend_from_slice(ch.as_bytes());
+                            name.extend_from_slice(b"xy");
+                            let w = crate::wiregen::WMsg { version: 0x0200, op: 0x000b, id: 7, groups: vec![crate::wiregen::WGroup { tag: 1, attrs: vec![crate::wiregen::WAttr { name: name.clone(), vals: vec![crate::wiregen::WVal::Plain(0x44, b"ab".to_vec()), crate::wiregen::WVal::Plain(0x41, b"cde".to_vec())] }] }] };
+                            let b = crate::wiregen::ser(&w);
+                            let from = 8 + 1 + 1 + 2 + name.len();
+                            for k in from..b.len() {
+                                out.push(line("sync", &[Ev::Data(b[..k].to_vec())]));
+                                out.push(line("async", &[Ev::Data(b[..k].to_vec())]));
+                                let evs = vec![Ev::Data(b[..k].to_vec()), Ev::Fail(std::io::ErrorKind::ConnectionAborted), Ev::Data(b[k..].to_vec())];
+                                out.push(line("sync", &evs));
+                                out.push(line("async", &evs));
+                            }
+                        }
+                    }
+                }
+            }
             for (b, p) in msgs {
                 let ha = b.len() - if p.is_empty() && b.ends_with(&[0xaa, 0xbb]) { 2 } else { 0 };
                 let ha = ha.min(600);
@@ -487,7 +514,7 @@ pub fn generate(prop: &str, tier: &str, r: &mut Rng, out: &mut Vec<String>) -> G
                     }
                 }
             }
-            GenInfo { rule: "for each well-formed message (short fixed ones and seeded random ones): every cut point before the end-of-attributes tag (end of stream after k bytes) and a single injected I/O failure at every byte offset before that tag (all kinds for short messages, a random kind per offset for long ones; WouldBlock for the blocking reader), through both parsers; the outcome must be an error carrying that kind; non-trivial = distinct scripts".into(), exhaustive: false }
+            GenInfo { rule: "for each well-formed message (short fixed ones and seeded random ones): every cut point before the end-of-attributes tag (end of stream after k bytes) and a single injected I/O failure at every byte offset before that tag (all kinds for short messages, a random kind per offset for long ones; WouldBlock for the blocking reader), through both parsers; plus messages whose attribute name has a multi-octet character across octet 64 / 128 / 256 / 1024, cut and faulted at every offset after the name; the outcome must be an error carrying that kind; non-trivial = distinct scripts".into(), exhaustive: false }
         }
         "C08" => {
             use crate::gen3::*;
